@@ -409,6 +409,31 @@ class Paths:
                                   "+".join(sorted({o for _, o in self.judged})) or "unjudged")
 
 
+def rb(after, obj):
+    """Model reasons of an accepted object read back (None when nothing was accepted).  An accepted object that
+    cannot even be read is reported as invalid, never as an exception of the check."""
+    if obj is None:
+        return None
+    try:
+        return after(obj)
+    except Exception as e:  # noqa
+        return ["unreadable:" + type(e).__name__]
+
+
+def aoef_readback(obj, locate, after, same):
+    """(model reasons, as-written flag) of the object an accepted document produced; (None, None) when rejected.
+    locate(obj) finds the object under test in the loaded collection (None: not there)."""
+    if obj is None:
+        return None, None
+    try:
+        x = locate(obj)
+        if x is None:
+            return None, False
+        return after(x), bool(same(x))
+    except Exception as e:  # noqa
+        return ["unreadable:" + type(e).__name__], False
+
+
 def world_for(case, out):
     """The world, or None after recording that a valid part of this space could not be built."""
     w = W()
@@ -492,29 +517,22 @@ def run_clip_evaluation(case):
     obs, obj = observe(lambda: data.ClipEvaluation(
         uuid=U("ce"), annotations=w.ca[a], predictions=w.cp[(p, pairing)],
         matches=[w.make_match(i, k) for i, k in enumerate(seq)]))
-    P.add("ctor", obs, True, after(obj) if obj is not None else None)
+    P.add("ctor", obs, True, rb(after, obj))
     # 2 dict
     d = {"uuid": U("ce"), "annotations": pickle.loads(w.ca_py[a]), "predictions": pickle.loads(w.cp_py[(p, pairing)]),
          "matches": [pickle.loads(w.match_py[(i, k)]) for i, k in enumerate(seq)], "metrics": [], "score": None}
     obs, obj = observe(lambda: data.ClipEvaluation.model_validate(d))
-    P.add("dict", obs, True, after(obj) if obj is not None else None)
+    P.add("dict", obs, True, rb(after, obj))
     # 3 json
     text = '{"uuid":"%s","annotations":%s,"predictions":%s,"matches":[%s],"metrics":[],"score":null}' % (
         U("ce"), w.ca_js[a], w.cp_js[(p, pairing)], ",".join(w.match_js[(i, k)] for i, k in enumerate(seq)))
     obs, obj = observe(lambda: data.ClipEvaluation.model_validate_json(text))
-    P.add("json", obs, True, after(obj) if obj is not None else None)
+    P.add("json", obs, True, rb(after, obj))
     # 4 aoef
     if case.get("aoef", True):
         doc, expressed = eval_doc_for(w, a, p, pairing, [match_entry(w, i, k) for i, k in enumerate(seq)])
         obs, ev = aoef_load(doc)
-        va = aw = None
-        if ev is not None:
-            ce = find_ce(ev, U("ce"))
-            aw = ce is not None
-            if aw:
-                got = read_ce(w, ce)
-                va = inv.clip_evaluation_reasons(*got)
-                aw = got == intended
+        va, aw = aoef_readback(ev, lambda e: find_ce(e, U("ce")), after, lambda ce: read_ce(w, ce) == intended)
         P.add("aoef", obs, expressed, va, aw)
     P.finish()
     out.nontrivial = bool(seq) and bool(a or p)
@@ -549,7 +567,7 @@ def run_match(case):
     if tf != "omit":
         kw["target"] = w.ann[0] if has_t else None
     obs, obj = observe(lambda: data.Match(**kw))
-    P.add("ctor", obs, True, after(obj) if obj is not None else None)
+    P.add("ctor", obs, True, rb(after, obj))
     # 2 dict
     d = pickle.loads(w.match_py[(0, "00")])
     d["affinity"], d["score"] = aff, score
@@ -559,7 +577,7 @@ def run_match(case):
         elif form == "omit":
             del d[key]
     obs, obj = observe(lambda: data.Match.model_validate(d))
-    P.add("dict", obs, True, after(obj) if obj is not None else None)
+    P.add("dict", obs, True, rb(after, obj))
     # 3 json
     dj = json.loads(w.match_js[(0, "00")])
     dj["affinity"], dj["score"] = aff, score
@@ -570,7 +588,7 @@ def run_match(case):
             del dj[key]
     text = json.dumps(dj)
     obs, obj = observe(lambda: data.Match.model_validate_json(text), nonstd)
-    P.add("json", obs, True, after(obj) if obj is not None else None)
+    P.add("json", obs, True, rb(after, obj))
     # 4 aoef: the clip holds exactly the sound events the match mentions, so that only the Match can be wrong
     e = {"uuid": str(U("m0")), "affinity": aff}
     if score is not None:
@@ -585,13 +603,11 @@ def run_match(case):
         e["target"] = None
     doc, expressed = eval_doc_for(w, "0" if has_t else "", "0" if has_s else "", "same", [e])
     obs, ev = aoef_load(doc, nonstd)
-    va = aw = None
-    if ev is not None:
-        ce = find_ce(ev, U("ce"))
-        aw = ce is not None and len(ce.matches) == 1
-        if aw:
-            va = after(ce.matches[0])
-            aw = same(ce.matches[0])
+    def only_match(e):
+        ce = find_ce(e, U("ce"))
+        return ce.matches[0] if ce is not None and len(ce.matches) == 1 else None
+
+    va, aw = aoef_readback(ev, only_match, after, same)
     P.add("aoef", obs, expressed, va, aw)
     P.finish()
     out.nontrivial = an not in BORING or sn not in BORING or not (has_s and has_t)
@@ -619,18 +635,18 @@ def run_project(case):
         uuid=U("proj"), name="proj", created_on=DT,
         clip_annotations=[w.pca[(i, c)] for i, c in enumerate(annotated)],
         tasks=[w.tasks[(i, c)] for i, c in enumerate(tasks)]))
-    P.add("ctor", obs, True, after(obj) if obj is not None else None)
+    P.add("ctor", obs, True, rb(after, obj))
     d = pickle.loads(w.project_py)
     d["tasks"] = [pickle.loads(w.tasks_py[(i, c)]) for i, c in enumerate(tasks)]
     d["clip_annotations"] = [pickle.loads(w.pca_py[(i, c)]) for i, c in enumerate(annotated)]
     obs, obj = observe(lambda: data.AnnotationProject.model_validate(d))
-    P.add("dict", obs, True, after(obj) if obj is not None else None)
+    P.add("dict", obs, True, rb(after, obj))
     dj = dict(w.project_js)
     dj["tasks"] = [w.tasks_js[(i, c)] for i, c in enumerate(tasks)]
     dj["clip_annotations"] = [w.pca_js[(i, c)] for i, c in enumerate(annotated)]
     text = json.dumps(dj)
     obs, obj = observe(lambda: data.AnnotationProject.model_validate_json(text))
-    P.add("json", obs, True, after(obj) if obj is not None else None)
+    P.add("json", obs, True, rb(after, obj))
     # aoef: the carrier defines all three clips; tasks and clip annotations are inline objects
     base = w.project_doc
     dd = dict(base["data"])
@@ -649,12 +665,8 @@ def run_project(case):
         new_c.append(dict(c_tmpl.get(cid, {}), uuid=str(U("pca%d" % i)), clip=cid))
     dd["tasks"], dd["clip_annotations"] = new_t, new_c
     obs, pr = aoef_load(dict(base, data=dd))
-    va = aw = None
-    if pr is not None:
-        aw = isinstance(pr, data.AnnotationProject)
-        if aw:
-            va = after(pr)
-            aw = read(pr) == (list(tasks), list(annotated))
+    va, aw = aoef_readback(pr, lambda x: x if isinstance(x, data.AnnotationProject) else None, after,
+                           lambda x: read(x) == (list(tasks), list(annotated)))
     P.add("aoef", obs, bool(expressed), va, aw)
     P.finish()
     out.nontrivial = bool(tasks) and bool(annotated)
@@ -686,27 +698,20 @@ def run_clip(case):
         return repr(float(c.start_time)) == repr(float(s)) and repr(float(c.end_time)) == repr(float(e))
 
     obs, obj = observe(lambda: data.Clip(uuid=U("clip0"), recording=w.rec, start_time=s, end_time=e))
-    P.add("ctor", obs, True, after(obj) if obj is not None else None)
+    P.add("ctor", obs, True, rb(after, obj))
     d = w.clips[0].model_dump()
     d["start_time"], d["end_time"] = s, e
     obs, obj = observe(lambda: data.Clip.model_validate(d))
-    P.add("dict", obs, True, after(obj) if obj is not None else None)
+    P.add("dict", obs, True, rb(after, obj))
     dj = w.clips[0].model_dump(mode="json")
     dj["start_time"], dj["end_time"] = s, e
     text = json.dumps(dj)
     obs, obj = observe(lambda: data.Clip.model_validate_json(text))
-    P.add("json", obs, True, after(obj) if obj is not None else None)
+    P.add("json", obs, True, rb(after, obj))
     for kind in CLIP_CARRIERS:
         doc, found = edit_entry(w.carrier_docs[kind], "clips", str(U("clip0")), start_time=s, end_time=e)
         obs, obj = aoef_load(doc)
-        va = aw = None
-        if obj is not None:
-            try:
-                c = loaded_clip(kind, obj)
-                va = after(c)
-                aw = same(c)
-            except (IndexError, AttributeError):
-                aw = False
+        va, aw = aoef_readback(obj, lambda o, kind=kind: loaded_clip(kind, o), after, same)
         P.add("aoef:" + kind, obs, found, va, aw)
     P.finish()
     out.nontrivial = case["start"] != case["end"]
@@ -714,6 +719,13 @@ def run_clip(case):
 
 
 # ---------------------------------------------------------------- space: score
+class Box:
+    """Holds a read-back score (which may legitimately be None) so that 'not found' stays distinguishable."""
+
+    def __init__(self, v):
+        self.v = v
+
+
 def loaded_cp(kind, obj):
     if kind == "evaluation":
         return obj.clip_evaluations[0].predictions
@@ -740,28 +752,21 @@ def run_score(case):
 
     def direct(cls, valid, make):
         obs, obj = observe(make)
-        P.add("ctor", obs, True, after(obj.score) if obj is not None else None)
+        P.add("ctor", obs, True, rb(lambda o: after(o.score), obj))
         d = valid.model_dump()
         d["score"] = v
         obs, obj = observe(lambda: cls.model_validate(d))
-        P.add("dict", obs, True, after(obj.score) if obj is not None else None)
+        P.add("dict", obs, True, rb(lambda o: after(o.score), obj))
         dj = valid.model_dump(mode="json")
         dj["score"] = v
         text = json.dumps(dj)
         obs, obj = observe(lambda: cls.model_validate_json(text), nonstd)
-        P.add("json", obs, True, after(obj.score) if obj is not None else None)
+        P.add("json", obs, True, rb(lambda o: after(o.score), obj))
 
     def aoef(kind, listname, uuid, get, label, **changes):
         doc, found = edit_entry(w.carrier_docs[kind], listname, uuid, **changes)
         obs, obj = aoef_load(doc, nonstd)
-        va = aw = None
-        if obj is not None:
-            try:
-                x = get(obj)
-                va = after(x)
-                aw = same(x)
-            except (IndexError, AttributeError):
-                aw = False
+        va, aw = aoef_readback(obj, lambda o: Box(get(o)), lambda b: after(b.v), lambda b: same(b.v))
         P.add(label, obs, found, va, aw)
 
     if cname == "PredictedTag":
@@ -773,12 +778,12 @@ def run_score(case):
             d = valid.model_dump()
             d["tags"][0]["score"] = v
             obs, obj = observe(lambda: cls.model_validate(d))
-            P.add("dict:in_" + site, obs, True, after(obj.tags[0].score) if obj is not None else None)
+            P.add("dict:in_" + site, obs, True, rb(lambda o: after(o.tags[0].score), obj))
             dj = valid.model_dump(mode="json")
             dj["tags"][0]["score"] = v
             text = json.dumps(dj)
             obs, obj = observe(lambda: cls.model_validate_json(text), nonstd)
-            P.add("json:in_" + site, obs, True, after(obj.tags[0].score) if obj is not None else None)
+            P.add("json:in_" + site, obs, True, rb(lambda o: after(o.tags[0].score), obj))
         getters = {
             "clip_predictions": (str(U("sCP")), lambda cp: cp.tags[0].score),
             "sound_event_predictions": (str(w.spred.uuid), lambda cp: cp.sound_events[0].tags[0].score),
